@@ -5,6 +5,15 @@ All six expose generator APIs driven from `Proc` workers that share ONE componen
 (one CPU, one disk, one resolver cache, one page cache, one TCP connection), so that the
 per-call bookkeeping of the components is exercised by overlapping calls.  GarbageCollector
 also has a self-rescheduling `handle_event` ('_gc_collect'), primed with `gc.prime()`.
+
+Besides the contention builders there are
+  * degenerate operations: zero-duration CPU tasks, zero-byte disk I/O, sends of 0 and 1 byte,
+    unknown / expired DNS names, page cache of capacity 1 without read-ahead, flush of a clean
+    cache;
+  * sibling parameters out of proportion: GC pause much longer / much shorter than the collection
+    interval (every strategy), CPU quantum >> and << task length, context switch >> quantum,
+    disk queue depth 1, DNS TTL far below the resolution latency, RTO far below / above the RTT.
+Structural counts (hosts, tasks, pages) come from `p.count`.
 """
 
 from __future__ import annotations
@@ -62,6 +71,8 @@ def _cpu_scenario(p, policy, quantum):
         if i % 3 == 0:
             yield quantum * 0.5
             yield from cpu.execute(f"task{i}b", quantum * 1.5, priority=2)
+        elif i % 3 == 1:
+            yield from cpu.execute(f"zero{i}", 0.0, priority=i % 2)  # nothing to run
         proc.log.append(cpu.ready_queue_depth)
         proc.done += 1
 
@@ -86,6 +97,41 @@ def cpu_priority_preemptive(seed, params):
     p = P(params, seed)
     q = p.lat(0)
     return _cpu_scenario(p, PriorityPreemptive(quantum_s=q), q)
+
+
+def _cpu_proportion(name, doc, policy_cls, need_quanta, cs_quanta):
+    @scenario(name, "infrastructure")
+    def builder(seed, params):
+        p = P(params, seed)
+        unit = p.lat(0)
+        # keep both the quantum and the task length at or above one clock tick
+        q, need = (unit / need_quanta, unit) if need_quanta < 1 else (unit, unit * need_quanta)
+        cpu = CPUScheduler("cpu", policy=policy_cls(quantum_s=q), context_switch_s=max(q * cs_quanta, 1e-9))
+        n_big = p.count(0, 3, lo=1, hi=4)  # bounded number of real tasks; everybody else runs a zero-length one
+
+        def body(proc, event):
+            i = _w(event)
+            if i < n_big:
+                yield from cpu.execute(f"task{i}", need * (1 + i % 2), priority=i % 3)
+            else:
+                yield from cpu.execute(f"zero{i}", 0.0, priority=i % 3)
+            proc.log.append(cpu.ready_queue_depth)
+            proc.done += 1
+
+        arr = p.arrivals(4)
+        procs = [Proc(f"w{i}", body) for i in range(len(arr))]
+        sim = make_sim([cpu, *procs], p.end())
+        _start(sim, procs, arr)
+        return Scenario(sim, {"cpu": cpu}, "infrastructure", True, len(arr), notes=policy_cls.__name__)
+
+    builder.__doc__ = doc
+    return builder
+
+
+_cpu_proportion("infrastructure.cpu_quantum_much_larger_than_task", "Quantum 50x the task length: every task finishes inside its first slice.", FairShare, 0.02, 0.1)
+_cpu_proportion("infrastructure.cpu_quantum_much_smaller_than_task", "Task length 40..80 quanta (at most 4 such tasks), priority policy.", PriorityPreemptive, 40.0, 0.25)
+_cpu_proportion("infrastructure.cpu_context_switch_dominates", "Context switch 25x the quantum, tasks of 2..4 quanta (at most 4 of them).", FairShare, 2.0, 25.0)
+_cpu_proportion("infrastructure.cpu_context_switch_dominates_priority", "Same with the priority policy.", PriorityPreemptive, 2.0, 25.0)
 
 
 @scenario("infrastructure.cpu_default_policy", "infrastructure")
@@ -125,6 +171,10 @@ def _disk_scenario(p, profile):
             yield from disk.write(size)
             yield hold
             yield from disk.read()
+        if i % 3 == 0:
+            yield from disk.read(0)  # zero-byte transfers: pure access latency
+            yield from disk.write(0)
+            yield from disk.read(1)
         proc.log.append(disk.queue_depth)
         proc.done += 1
 
@@ -156,47 +206,117 @@ def disk_nvme(seed, params):
     )
 
 
+@scenario("infrastructure.disk_queue_depth_one", "infrastructure")
+def disk_queue_depth_one(seed, params):
+    """Queue depth never above 1: the clients take turns (Resource of capacity 1) on a disk of
+    each profile (worker i uses disk i mod 3; the NVMe has native_queue_depth=1), including
+    zero-byte and one-byte transfers."""
+    p = P(params, seed)
+    disks = [
+        DiskIO("hdd", profile=HDD(seek_time_s=p.lat(0), rotational_latency_s=p.lat(1), transfer_rate_mbps=50.0, queue_depth_penalty=0.5)),
+        DiskIO("ssd", profile=SSD(base_read_latency_s=p.lat(2), base_write_latency_s=p.lat(3), transfer_rate_mbps=200.0, queue_depth_factor=0.3)),
+        DiskIO("nvme", profile=NVMe(base_read_latency_s=p.lat(4), base_write_latency_s=p.lat(5), transfer_rate_mbps=1000.0, native_queue_depth=1, overflow_penalty=0.2)),
+        DiskIO("default"),  # default profile object
+    ]
+    guards = [Resource(f"turn_{d.name}", capacity=1) for d in disks]
+
+    def body(proc, event):
+        i = _w(event)
+        d, g = disks[i % len(disks)], guards[i % len(disks)]
+        grant = yield g.acquire(1)
+        yield from d.read(0)
+        yield from d.write(0)
+        yield from d.write(1)
+        yield from d.read(4096 * (1 + i % 2))
+        grant.release()
+        proc.log.append(d.stats.peak_queue_depth)
+        proc.done += 1
+
+    arr = p.arrivals(8)
+    procs = [Proc(f"w{i}", body) for i in range(len(arr))]
+    sim = make_sim([*disks, *guards, *procs], p.end())
+    _start(sim, procs, arr)
+    return Scenario(sim, {d.name: d for d in disks}, "infrastructure", True, len(arr))
+
+
+@scenario("infrastructure.disk_nvme_overflow", "infrastructure")
+def disk_nvme_overflow(seed, params):
+    """NVMe with native_queue_depth=1 under an unguarded burst: every request beyond the first
+    pays the overflow penalty."""
+    p = P(params, seed)
+    return _disk_scenario(p, NVMe(base_read_latency_s=p.lat(0), base_write_latency_s=p.lat(1), transfer_rate_mbps=3500.0, native_queue_depth=1, overflow_penalty=1.0))
+
+
 # ----------------------------------------------------------------------
 # DNSResolver
 
 
-@scenario("infrastructure.dns_resolver", "infrastructure")
-def dns_resolver(seed, params):
-    """Thundering herd on a cold resolver cache, hits, TTL expiry, LRU eviction (tiny cache),
-    unknown hosts, and a record added while lookups are in flight."""
-    p = P(params, seed)
-    ttl = p.lat(3) * 5
-    hosts = ["a.example", "b.example", "c.example", "d.example"]
+def _dns_scenario(p, ttl, capacity, n_hosts, records_at_start=True):
+    hosts = [f"{chr(97 + j)}.example" for j in range(n_hosts)]
     records = {h: DNSRecord(h, f"10.0.0.{j}", ttl_s=ttl * (1 + j % 2)) for j, h in enumerate(hosts)}
     dns = DNSResolver(
         "dns",
-        cache_capacity=p.cap(2),
+        cache_capacity=capacity,
         root_latency_s=p.lat(0),
         tld_latency_s=p.lat(1),
         auth_latency_s=p.lat(2),
-        records=records,
+        records=records if records_at_start else None,
     )
+    resolution = p.lat(0) + p.lat(1) + p.lat(2)
+
+    def H(j):
+        return hosts[j % len(hosts)]
 
     def body(proc, event):
         i = _w(event)
-        h = hosts[i % 2]
+        h = H(i % 2)
+        rn = yield from dns.resolve("nx.example")  # unknown name, cold cache
         r0 = yield from dns.resolve(h)  # burst: everybody misses at once
-        r1 = yield from dns.resolve(h)  # hit (or evicted by the other host)
-        yield ttl * 2.5
+        r1 = yield from dns.resolve(h)  # hit (or evicted by the other host / already expired)
+        yield max(ttl * 2.5, 1e-9)
         r2 = yield from dns.resolve(h)  # expired
-        r3 = yield from dns.resolve(hosts[2 + i % 2])  # more hosts than cache slots
-        r4 = yield from dns.resolve("nx.example")  # unknown
+        r3 = yield from dns.resolve(H(2 + i % 2))  # more hosts than cache slots
+        r4 = yield from dns.resolve("nx.example")  # unknown again (never cached)
         if i % 4 == 0:
             dns.add_record(DNSRecord("late.example", "10.9.9.9", ttl_s=ttl))
+            if not records_at_start:
+                for rec in records.values():
+                    dns.add_record(rec)
         r5 = yield from dns.resolve("late.example")
-        proc.log.append((r0, r1, r2, r3, r4, r5))
+        yield resolution  # a little later: the late record may have expired in the meantime
+        r6 = yield from dns.resolve("late.example")
+        proc.log.append((rn, r0, r1, r2, r3, r4, r5, r6))
         proc.done += 1
 
     arr = p.arrivals(6)
     procs = [Proc(f"w{i}", body) for i in range(len(arr))]
     sim = make_sim([dns, *procs], p.end())
     _start(sim, procs, arr)
-    return Scenario(sim, {"dns": dns}, "infrastructure", True, len(arr))
+    return Scenario(sim, {"dns": dns}, "infrastructure", True, len(arr), notes=f"hosts={n_hosts} cap={capacity} ttl={ttl}")
+
+
+@scenario("infrastructure.dns_resolver", "infrastructure")
+def dns_resolver(seed, params):
+    """Thundering herd on a cold resolver cache, hits, TTL expiry, LRU eviction (tiny cache),
+    unknown hosts, and a record added while lookups are in flight (hosts = count 0)."""
+    p = P(params, seed)
+    return _dns_scenario(p, p.lat(3) * 5, p.cap(2), p.count(0, 4, lo=1, hi=12))
+
+
+@scenario("infrastructure.dns_capacity_one_short_ttl", "infrastructure")
+def dns_capacity_one_short_ttl(seed, params):
+    """One cache slot and a TTL of a nanosecond or two - far below the resolution latency: every
+    record has expired by the time anybody looks again."""
+    p = P(params, seed)
+    return _dns_scenario(p, 1e-9, 1, p.count(0, 3, lo=1, hi=12))
+
+
+@scenario("infrastructure.dns_no_records", "infrastructure")
+def dns_no_records(seed, params):
+    """Resolver created without any record (everything is unknown until the first add_record),
+    TTL much longer than the run, default-sized cache."""
+    p = P(params, seed)
+    return _dns_scenario(p, 3600.0, 1000, p.count(0, 2, lo=1, hi=12), records_at_start=False)
 
 
 # ----------------------------------------------------------------------
@@ -249,6 +369,40 @@ def gc_generational(seed, params):
     return _gc_scenario(p, strat, None)
 
 
+def _gc_proportion(kind: str, long_pause: bool):
+    name = f"infrastructure.gc_{'long' if long_pause else 'short'}_pause_{kind}"
+
+    @scenario(name, "infrastructure")
+    def builder(seed, params):
+        p = P(params, seed)
+        # the period stays between 20 ms and 0.5 s so that the (endless) daemon produces a bounded
+        # number of collections before end_time
+        interval = min(max(p.lat(1), 0.02), 0.5)
+        pause = interval * 2.5 if long_pause else interval / 50.0
+        if kind == "stop_the_world":
+            # fixed pressure 0.5 -> multiplier 1 + 0.5 * 1 = 1.5, jitter 0.8..1.2
+            strat, pressure = StopTheWorld(base_pause_s=pause, interval_s=interval, pressure_multiplier=1.0), 0.5
+        elif kind == "concurrent":
+            strat, pressure = ConcurrentGC(pause_s=pause, interval_s=interval), None
+        elif kind == "generational_major":
+            # fixed high heap pressure: every collection is a MAJOR one from the very first
+            strat, pressure = GenerationalGC(minor_pause_s=interval / 100.0, major_pause_s=pause, minor_interval_s=interval, major_threshold=0.75), 0.9
+        else:  # generational_minor: pressure stays below the threshold, only minor collections
+            strat, pressure = GenerationalGC(minor_pause_s=pause, major_pause_s=pause * 4, minor_interval_s=interval, major_threshold=0.75), 0.1
+        return _gc_scenario(p, strat, pressure)
+
+    builder.__doc__ = (
+        f"{kind}: pause {'2.5x LONGER than' if long_pause else '50x shorter than'} the collection interval "
+        "(interval between 20 ms and 0.5 s), periodic chain primed at t = 0 and a second one primed mid-run."
+    )
+    return builder
+
+
+for _kind in ("stop_the_world", "concurrent", "generational_major", "generational_minor"):
+    _gc_proportion(_kind, True)
+    _gc_proportion(_kind, False)
+
+
 # ----------------------------------------------------------------------
 # PageCache
 
@@ -295,6 +449,54 @@ def _page_cache(p):
         disk_read_latency_s=p.lat(0),
         disk_write_latency_s=p.lat(1),
     )
+
+
+@scenario("infrastructure.page_cache_capacity_one", "infrastructure")
+def page_cache_capacity_one(seed, params):
+    """capacity_pages=1 (every miss evicts the only page, dirty or not); read-ahead 0 for even
+    x.v, 2 for odd (read-ahead can never fit); overlapping clients; flush of a clean cache."""
+    p = P(params, seed)
+    ra = 0 if int(p.x("v", seed)) % 2 == 0 else 2
+    pc = PageCache("pagecache", capacity_pages=1, readahead_pages=ra, disk_read_latency_s=p.lat(0), disk_write_latency_s=p.lat(1))
+    inner = _page_body(pc, p.hold(), None)
+
+    def body(proc, event):
+        n0 = yield from pc.flush()  # nothing cached at all
+        yield from inner(proc, event)
+        n1 = yield from pc.flush()
+        n2 = yield from pc.flush()  # clean again
+        proc.log.append((n0, n1, n2))
+
+    arr = p.arrivals(8)
+    procs = [Proc(f"w{i}", body) for i in range(len(arr))]
+    sim = make_sim([pc, *procs], p.end())
+    _start(sim, procs, arr)
+    return Scenario(sim, {"pagecache": pc}, "infrastructure", True, len(arr), notes=f"readahead={ra}")
+
+
+@scenario("infrastructure.page_cache_no_readahead", "infrastructure")
+def page_cache_no_readahead(seed, params):
+    """readahead_pages=0 (the default), capacity = count 0, pages spread over count 1 ids."""
+    p = P(params, seed)
+    pc = PageCache("pagecache", capacity_pages=p.count(0, 3, lo=1, hi=12), disk_read_latency_s=p.lat(0), disk_write_latency_s=p.lat(1))
+    n_pages = p.count(1, 5, lo=1, hi=12)
+    hold = p.hold()
+
+    def body(proc, event):
+        i = _w(event)
+        yield from pc.read_page(i % n_pages)
+        yield from pc.write_page((i + 1) % n_pages)
+        yield hold
+        yield from pc.read_page((i + 2) % n_pages)
+        n = yield from pc.flush()
+        proc.log.append((pc.pages_cached, pc.dirty_pages, n))
+        proc.done += 1
+
+    arr = p.arrivals(8)
+    procs = [Proc(f"w{i}", body) for i in range(len(arr))]
+    sim = make_sim([pc, *procs], p.end())
+    _start(sim, procs, arr)
+    return Scenario(sim, {"pagecache": pc}, "infrastructure", True, len(arr))
 
 
 @scenario("infrastructure.page_cache_serialized", "infrastructure")
@@ -401,10 +603,16 @@ def _tcp_scenario(p, cc):
 
     def body(proc, event):
         i = _w(event)
+        if i % 3 == 0:
+            yield from tcp.send(0)  # nothing to send
+            yield from tcp.send(1)  # one byte = one segment
         yield from tcp.send(1000 * (3 + i % 5))  # several senders share one window
         if i % 2 == 0:
             yield hold
             yield from tcp.send(1000 * 12 + 1)
+        if i % 3 == 1:
+            yield from tcp.send(1000)  # exactly one MSS
+            yield from tcp.send(0)
         proc.log.append((round(tcp.cwnd, 6), tcp.stats.retransmissions))
         proc.done += 1
 
@@ -428,3 +636,103 @@ def tcp_cubic(seed, params):
 @scenario("infrastructure.tcp_bbr", "infrastructure")
 def tcp_bbr(seed, params):
     return _tcp_scenario(P(params, seed), BBR(gain=1.0, drain_gain=0.75))
+
+
+def _tcp_proportion(name, doc, rto_over_rtt, loss, cwnd):
+    @scenario(name, "infrastructure")
+    def builder(seed, params):
+        p = P(params, seed)
+        cc = [AIMD(), Cubic(), BBR()][int(p.x("v", seed)) % 3]
+        rtt = p.lat(0)
+        tcp = TCPConnection(
+            "tcp",
+            congestion_control=cc,
+            base_rtt_s=rtt,
+            loss_rate=loss,
+            mss_bytes=p.count(0, 10, lo=1, hi=12) * 100,
+            initial_cwnd=cwnd,
+            initial_ssthresh=2.0,
+            retransmit_timeout_s=max(rtt * rto_over_rtt, 1e-9),
+        )
+
+        def body(proc, event):
+            i = _w(event)
+            yield from tcp.send(0)
+            yield from tcp.send(1)
+            yield from tcp.send(tcp._mss * (2 + i % 3))  # whole segments
+            yield from tcp.send(tcp._mss * 2 + 1)  # one byte over
+            proc.log.append((round(tcp.cwnd, 6), tcp.stats.retransmissions, tcp.stats.segments_sent))
+            proc.done += 1
+
+        arr = p.arrivals(4)
+        procs = [Proc(f"w{i}", body) for i in range(len(arr))]
+        sim = make_sim([tcp, *procs], p.end())
+        _start(sim, procs, arr)
+        return Scenario(sim, {"tcp": tcp}, "infrastructure", True, len(arr), notes=cc.name)
+
+    builder.__doc__ = doc
+    return builder
+
+
+_tcp_proportion("infrastructure.tcp_rto_far_below_rtt", "Retransmit timeout 1/100 of the RTT, half of the segments lost, window of one segment (congestion control = x.v mod 3).", 0.01, 0.5, 1.0)
+_tcp_proportion("infrastructure.tcp_rto_far_above_rtt", "Retransmit timeout 100x the RTT, 30 % loss.", 100.0, 0.3, 2.0)
+_tcp_proportion("infrastructure.tcp_lossless_large_window", "No loss at all and an initial window far above ssthresh.", 1.0, 0.0, 64.0)
+_tcp_proportion("infrastructure.tcp_always_lost", "loss_rate=1.0: every first transmission is lost, every segment is retransmitted once.", 2.0, 1.0, 4.0)
+
+
+# ----------------------------------------------------------------------
+# default construction
+
+
+@scenario("infrastructure.default_construction", "infrastructure")
+def default_construction(seed, params):
+    """Every component built with its DEFAULT arguments (default profiles, strategies, latencies,
+    queue depths): worker i uses component i mod 8; only the workload comes from the parameters."""
+    p = P(params, seed)
+    cpu = CPUScheduler("cpu")
+    hdd, ssd, nvme = DiskIO("hdd", profile=HDD()), DiskIO("ssd", profile=SSD()), DiskIO("nvme", profile=NVMe())
+    dns = DNSResolver("dns", records={"a.example": DNSRecord("a.example", "10.0.0.1")})
+    gc = GarbageCollector("gc")
+    pc = PageCache("pagecache")
+    tcp = TCPConnection("tcp")
+    hold = min(p.hold(), 0.05)
+
+    def body(proc, event):
+        i = _w(event)
+        which = i % 8
+        if which == 0:
+            yield from cpu.execute(f"t{i}", hold)
+            yield from cpu.execute(f"z{i}", 0.0)
+        elif which in (1, 2, 3):
+            d = (hdd, ssd, nvme)[which - 1]
+            yield from d.read()
+            yield from d.write()
+            yield from d.read(0)
+            yield from d.write(1)
+        elif which == 4:
+            a = yield from dns.resolve("a.example")
+            b = yield from dns.resolve("a.example")
+            c = yield from dns.resolve("nx.example")
+            proc.log.append((a, b, c))
+        elif which == 5:
+            pz = yield from gc.pause()
+            proc.log.append(round(pz, 9))
+        elif which == 6:
+            yield from pc.read_page(i)
+            yield from pc.write_page(i)
+            yield from pc.write_page(i + 1)
+            n = yield from pc.flush()
+            proc.log.append(n)
+        else:
+            yield from tcp.send(0)
+            yield from tcp.send(1)
+            yield from tcp.send(1460 * 30)
+        proc.done += 1
+
+    arr = p.arrivals(16)
+    procs = [Proc(f"w{i}", body) for i in range(len(arr))]
+    sim = make_sim([cpu, hdd, ssd, nvme, dns, gc, pc, tcp, *procs], p.end())
+    sim.schedule(gc.prime())
+    _start(sim, procs, arr)
+    comps = {"cpu": cpu, "hdd": hdd, "ssd": ssd, "nvme": nvme, "dns": dns, "gc": gc, "pagecache": pc, "tcp": tcp}
+    return Scenario(sim, comps, "infrastructure", True, len(arr) + 1)
